@@ -255,32 +255,92 @@ Section Generic.
     cbn [andb]. destruct (N.ltb_spec len (16 - rct)); lia.
   Qed.
 
+  (* update_hash_part = fill the scratch pad, then the aligned part *)
+  Definition fill_part (ctx : cctx) (ct : bytes) (btc : N) : cctx :=
+    let ctx := set_scratch ctx (write_at (c_scratch ctx) (N.to_nat (c_rct ctx))
+                                         (firstn (N.to_nat btc) ct)) in
+    let ctx := set_rct ctx (c_rct ctx + btc) in
+    if c_rct ctx =? 16
+    then set_rct (paead_update_ctx ctx (firstn 16 (c_scratch ctx))) 0
+    else ctx.
+
+  Definition tail_part (ctx : cctx) (ct : bytes) (length_ btc : N) : cctx :=
+    let remain_ct_bytes := N.land length_ HASH_REMAIN_CLAMP in
+    let length_ := N.land length_ HASH_LEN_CLAMP in
+    let ctx := paead_update_ctx ctx (firstn (N.to_nat length_) (skipn (N.to_nat btc) ct)) in
+    let remain_ct_ptr := skipn (N.to_nat (btc + length_)) ct in
+    let ctx := set_scratch ctx (write_at (c_scratch ctx) 0 (firstn (N.to_nat remain_ct_bytes) remain_ct_ptr)) in
+    set_rct ctx (c_rct ctx + remain_ct_bytes).
+
+  Lemma uhp_split : forall ctx ct len btc,
+    update_hash_part ctx ct len btc = tail_part (fill_part ctx ct btc) ct (len - btc) btc.
+  Proof. reflexivity. Qed.
+
+  Lemma tail_part_core : forall ctx ct btc cw,
+    (N.to_nat btc <= length ct)%nat ->
+    c_poly_key ctx = pk -> length (c_scratch ctx) = 16%nat -> c_rct ctx = 0 ->
+    mult16 (length cw) -> c_hash ctx = paead_update pk h0 cw ->
+    N.of_nat (length ct) < 2 ^ 64 ->
+    poly_core (tail_part ctx ct (len64 ct - btc) btc) (cw ++ skipn (N.to_nat btc) ct).
+  Proof.
+    intros ctx ct btc cw Hb Hpk Hs Hr Hcw Hh HD.
+    set (D := skipn (N.to_nat btc) ct).
+    assert (HlD : length D = (length ct - N.to_nat btc)%nat) by (subst D; apply skipn_length).
+    replace (len64 ct - btc) with (len64 D) by (unfold len64; lia).
+    unfold tail_part.
+    replace (skipn (N.to_nat (btc + N.land (len64 D) HASH_LEN_CLAMP)) ct)
+      with (skipn (N.to_nat (N.land (len64 D) HASH_LEN_CLAMP)) D)
+      by (subst D; rewrite skipn_skipn_add; f_equal; lia).
+    apply absorb_aligned; try assumption. lia.
+  Qed.
+
+  Lemma fill_part_zero : forall ctx ct, c_rct ctx = 0 ->
+    let c' := fill_part ctx ct 0 in
+    c_poly_key c' = c_poly_key ctx /\ c_scratch c' = c_scratch ctx /\ c_rct c' = 0 /\ c_hash c' = c_hash ctx.
+  Proof.
+    intros ctx ct Hz. unfold fill_part. cbn [N.to_nat firstn]. rewrite write_at_nil.
+    cbn [c_rct set_rct set_scratch]. rewrite Hz. cbn. repeat split.
+  Qed.
+
+  Lemma fill_part_full : forall ctx ct btc, c_rct ctx + btc = 16 ->
+    let scr1 := write_at (c_scratch ctx) (N.to_nat (c_rct ctx)) (firstn (N.to_nat btc) ct) in
+    let c' := fill_part ctx ct btc in
+    c_poly_key c' = c_poly_key ctx /\ c_scratch c' = scr1 /\ c_rct c' = 0 /\
+    c_hash c' = paead_update (c_poly_key ctx) (c_hash ctx) (firstn 16 scr1).
+  Proof.
+    intros ctx ct btc Hf. unfold fill_part. cbn [c_rct set_rct set_scratch]. rewrite Hf. cbn. repeat split.
+  Qed.
+
+  Lemma fill_part_partial : forall ctx ct btc, c_rct ctx + btc <> 16 ->
+    let scr1 := write_at (c_scratch ctx) (N.to_nat (c_rct ctx)) (firstn (N.to_nat btc) ct) in
+    let c' := fill_part ctx ct btc in
+    c_poly_key c' = c_poly_key ctx /\ c_scratch c' = scr1 /\ c_rct c' = c_rct ctx + btc /\
+    c_hash c' = c_hash ctx.
+  Proof.
+    intros ctx ct btc Hf. unfold fill_part. cbn [c_rct set_rct set_scratch].
+    destruct (N.eqb_spec (c_rct ctx + btc) 16); [contradiction|]. cbn. repeat split.
+  Qed.
+
   Lemma update_hash_part_core : forall ctx ct D,
     poly_core ctx ct -> N.of_nat (length D) < 2 ^ 64 ->
     poly_core (update_hash_part ctx D (len64 D) (btc_of (c_rct ctx) (len64 D))) (ct ++ D).
   Proof.
     intros ctx ct D (Hpk & Hs & cw & cr & Hct & Hcw & Hcr & Hrct & Hscr & Hh) HD.
     assert (Hr16 : c_rct ctx < 16) by (rewrite Hrct; unfold len64; lia).
-    rewrite btc_of_spec by assumption.
-    unfold ChachaStream.update_hash_part.
+    rewrite btc_of_spec by assumption. rewrite uhp_split.
     destruct (N.eqb_spec (c_rct ctx) 0) as [Hz|Hnz].
     - (* nothing pending in the scratch pad *)
       assert (cr = []) by (destruct cr; [reflexivity| rewrite Hz in Hrct; unfold len64 in Hrct; simpl in Hrct; lia]).
       subst cr. rewrite app_nil_r in Hct. subst ct.
-      rewrite Hz. cbn [N.to_nat firstn]. rewrite write_at_nil.
-      cbn [c_rct set_rct set_scratch c_scratch]. rewrite N.add_0_r, Hz. cbn [N.eqb].
-      rewrite N.sub_0_r. cbn [N.to_nat skipn]. rewrite N.add_0_l.
-      replace (set_rct (set_scratch ctx (c_scratch ctx)) 0) with ctx
-        by (destruct ctx; cbn in *; subst; reflexivity).
-      apply absorb_aligned; assumption.
+      destruct (fill_part_zero ctx D Hz) as (F1 & F2 & F3 & F4).
+      change D with (skipn (N.to_nat 0) D) at 3.
+      apply tail_part_core; try assumption; try congruence. simpl; lia.
     - (* scratch pad holds cr, 0 < |cr| < 16 *)
-      set (rct := c_rct ctx) in *.
-      set (btc := N.min (len64 D) (16 - rct)).
+      set (btc := N.min (len64 D) (16 - c_rct ctx)).
       assert (Hbtc : N.to_nat btc = Nat.min (length D) (16 - length cr)).
       { subst btc. rewrite Hrct. unfold len64. lia. }
-      cbn [c_rct set_rct set_scratch c_scratch].
-      set (scr1 := write_at (c_scratch ctx) (N.to_nat rct) (firstn (N.to_nat btc) D)).
-      assert (Hrn : N.to_nat rct = length cr) by (rewrite Hrct; unfold len64; lia).
+      set (scr1 := write_at (c_scratch ctx) (N.to_nat (c_rct ctx)) (firstn (N.to_nat btc) D)).
+      assert (Hrn : N.to_nat (c_rct ctx) = length cr) by (rewrite Hrct; unfold len64; lia).
       assert (Hfl : length (firstn (N.to_nat btc) D) = N.to_nat btc).
       { rewrite firstn_length, Hbtc. lia. }
       assert (Hs1 : length scr1 = 16%nat).
@@ -288,47 +348,146 @@ Section Generic.
       assert (Hp1 : firstn (length cr + N.to_nat btc) scr1 = cr ++ firstn (N.to_nat btc) D).
       { subst scr1. rewrite Hrn. rewrite <- Hfl at 1. rewrite write_at_prefix by lia.
         rewrite Hscr. reflexivity. }
-      destruct (N.eqb_spec (rct + btc) 16) as [Hfull|Hnot].
+      destruct (N.eq_dec (c_rct ctx + btc) 16) as [Hfull|Hnot].
       + (* the scratch pad fills up: absorb it, then continue aligned *)
         assert (Hb16 : (length cr + N.to_nat btc = 16)%nat) by lia.
         assert (HbD : (N.to_nat btc <= length D)%nat) by lia.
-        unfold ChachaStream.paead_update_ctx at 2.
-        cbn [c_rct set_rct set_scratch c_scratch set_hash c_poly_key c_hash].
-        rewrite <- Hb16, Hp1.
-        set (ctxa := set_rct (set_hash (set_rct (set_scratch ctx scr1) (rct + btc))
-                                       (paead_update (c_poly_key ctx) (c_hash ctx) (cr ++ firstn (N.to_nat btc) D))) 0).
-        rewrite <- (firstn_skipn (N.to_nat btc) D) at 7.
-        rewrite Hct, <- app_assoc, (app_assoc cr), (app_assoc cw).
-        replace (len64 D - btc) with (len64 (skipn (N.to_nat btc) D))
-          by (unfold len64; rewrite skipn_length; lia).
-        replace (skipn (N.to_nat (btc + N.land (len64 (skipn (N.to_nat btc) D)) HASH_LEN_CLAMP)) D)
-          with (skipn (N.to_nat (N.land (len64 (skipn (N.to_nat btc) D)) HASH_LEN_CLAMP)) (skipn (N.to_nat btc) D))
-          by (rewrite skipn_skipn_add; f_equal; lia).
-        apply (absorb_aligned ctxa (skipn (N.to_nat btc) D) (cw ++ (cr ++ firstn (N.to_nat btc) D))).
-        * subst ctxa. cbn. assumption.
-        * subst ctxa. cbn. assumption.
-        * reflexivity.
+        destruct (fill_part_full ctx D btc Hfull) as (F1 & F2 & F3 & F4).
+        fold scr1 in F2, F4. rewrite <- Hb16, Hp1 in F4.
+        replace (ct ++ D) with ((cw ++ (cr ++ firstn (N.to_nat btc) D)) ++ skipn (N.to_nat btc) D).
+        2:{ rewrite Hct, <- !app_assoc. rewrite firstn_skipn. reflexivity. }
+        apply tail_part_core; try assumption; try congruence.
         * rewrite !app_length, Hfl. apply mult16_add; [assumption|]. exists 1%nat. lia.
-        * subst ctxa. cbn [c_hash set_rct set_hash]. rewrite Hh, Hpk. apply pupd_app. assumption.
-        * rewrite skipn_length. lia.
+        * rewrite F4, Hh, Hpk. apply pupd_app. assumption.
       + (* still not full: the whole segment went into the scratch pad *)
         assert (Hall : N.to_nat btc = length D) by lia.
         assert (Hlt : (length cr + length D < 16)%nat) by lia.
-        rewrite Hall, firstn_all in *.
+        destruct (fill_part_partial ctx D btc Hnot) as (F1 & F2 & F3 & F4).
+        fold scr1 in F2.
+        rewrite Hall, firstn_all in Hp1.
+        unfold tail_part.
         replace (len64 D - btc) with 0 by (unfold len64; lia).
-        cbn [N.land N.to_nat firstn].
-        rewrite skipn_all2 by lia. rewrite skipn_nil.
-        unfold write_at at 1. cbn [firstn app length Nat.add skipn].
+        cbn [N.land N.to_nat firstn]. rewrite write_at_nil.
         unfold ChachaStream.paead_update_ctx.
         cbn [c_rct set_rct set_scratch c_scratch set_hash c_poly_key c_hash].
         rewrite pupd_nil, N.add_0_r.
         unfold poly_core. cbn [c_poly_key c_scratch c_rct c_hash set_rct set_scratch set_hash].
+        rewrite F1, F2, F3, F4.
         split; [assumption|]. split; [assumption|].
         exists cw, (cr ++ D).
         split. { rewrite Hct, app_assoc. reflexivity. }
         split; [assumption|]. split. { rewrite app_length. lia. }
         split. { rewrite Hrct, len64_app. unfold len64 in *. lia. }
-        split. { rewrite app_length, <- Hall. exact Hp1. }
+        split. { rewrite app_length. exact Hp1. }
         assumption.
   Qed.
+
+  (* ---------- transport along frames ---------- *)
+  Lemma ks_rel_same : forall a b st, same_ks a b -> ks_rel a st -> ks_rel b st.
+  Proof.
+    intros a b st (E1 & E2 & E3 & E4) (H1 & H2 & H3 & H4 & H5).
+    unfold ks_rel. rewrite E1, E2, E3, E4. repeat split; assumption.
+  Qed.
+
+  Lemma poly_core_same : forall a b ct, same_poly a b -> poly_core a ct -> poly_core b ct.
+  Proof.
+    intros a b ct (E1 & E2 & E3 & E4 & E5 & E6) (H1 & H2 & cw & cr & H3).
+    unfold poly_core. rewrite E1, E2, E3, E4. split; [assumption|]. split; [assumption|].
+    exists cw, cr. exact H3.
+  Qed.
+
+  Lemma ref_out_length : forall msg c buf, length (ref_out c buf msg) = length msg.
+  Proof.
+    unfold StreamLemmas.ref_out.
+    induction msg as [|m t IH]; intros c buf; [reflexivity|].
+    cbn [StreamLemmas.ref].
+    destruct buf as [|k0 b0].
+    - destruct (blk_cons 64 ltac:(lia) blk blk_len (nxt c)) as (k & r & Hk). rewrite Hk.
+      specialize (IH (nxt c) r). destruct (StreamLemmas.ref blk nxt (nxt c) r t). cbn in *. lia.
+    - specialize (IH c b0). destruct (StreamLemmas.ref blk nxt c b0 t). cbn in *. lia.
+  Qed.
+
+  (* ---------- the invariant carried between calls ---------- *)
+  Definition st_after (P : bytes) : N * bytes := ref_st 0 [] P.
+  Definition ct_of (dir : cdir) (P : bytes) : bytes :=
+    match dir with Enc => ref_out 0 [] P | Dec => P end.
+  Definition out_of (P s : bytes) : bytes := ref_out (fst (st_after P)) (snd (st_after P)) s.
+
+  Definition inv (dir : cdir) (ctx : cctx) (P : bytes) : Prop :=
+    ks_rel ctx (st_after P) /\ poly_core ctx (ct_of dir P) /\
+    c_hash_len ctx = len64 P /\ c_aad_len ctx = len64 aad.
+
+  Lemma st_after_app : forall P s,
+    st_after (P ++ s) = ref_st (fst (st_after P)) (snd (st_after P)) s.
+  Proof. intros. unfold st_after, StreamLemmas.ref_st. rewrite ref_app. reflexivity. Qed.
+
+  Lemma ref_out_app : forall P s, ref_out 0 [] (P ++ s) = ref_out 0 [] P ++ out_of P s.
+  Proof. intros. unfold out_of, st_after, StreamLemmas.ref_out at 1. rewrite ref_app. reflexivity. Qed.
+
+  Lemma ct_of_app : forall dir P s,
+    ct_of dir (P ++ s) = ct_of dir P ++ match dir with Enc => out_of P s | Dec => s end.
+  Proof. intros [] P s; cbn [ct_of]; [apply ref_out_app|reflexivity]. Qed.
+
+  Lemma out_of_length : forall P s, length (out_of P s) = length s.
+  Proof. intros. apply ref_out_length. Qed.
+
+  Lemma update_direct_btc : forall ctx src dir,
+    update_direct key ctx src dir =
+    let btc := btc_of (c_rct ctx) (len64 src) in
+    let ctx := set_hash_len ctx (c_hash_len ctx + len64 src) in
+    match dir with
+    | Enc => let '(ctx, dst) := enc_dec_ks key ctx src in
+             (update_hash_part ctx dst (len64 src) btc, dst)
+    | Dec => enc_dec_ks key (update_hash_part ctx src (len64 src) btc) src
+    end.
+  Proof. reflexivity. Qed.
+
+  Lemma update_direct_inv : forall dir ctx P s,
+    inv dir ctx P -> N.of_nat (length s) < 2 ^ 64 ->
+    inv dir (fst (update_direct key ctx s dir)) (P ++ s) /\
+    snd (update_direct key ctx s dir) = out_of P s.
+  Proof.
+    intros dir ctx P s (Hks & Hpc & Hhl & Hal) Hs.
+    rewrite update_direct_btc. cbv zeta.
+    set (ctx1 := set_hash_len ctx (c_hash_len ctx + len64 s)).
+    assert (Hks1 : ks_rel ctx1 (st_after P)) by (apply (ks_rel_same ctx); [cbn; repeat split|assumption]).
+    assert (Hpc1 : poly_core ctx1 (ct_of dir P))
+      by (destruct Hpc as (A & B & C); split; [exact A|split; [exact B|exact C]]).
+    assert (Hr1 : c_rct ctx1 = c_rct ctx) by reflexivity.
+    destruct dir.
+    - (* encrypt: cipher first, then hash the produced ciphertext *)
+      pose proof (enc_dec_ks_sim ctx1 (st_after P) s Hks1) as [Ho Hks2].
+      pose proof (enc_dec_ks_frame ctx1 s) as Hfr.
+      destruct (enc_dec_ks key ctx1 s) as [ctx2 dst] eqn:Ee. cbn [fst snd] in *.
+      fold (out_of P s) in Ho. subst dst.
+      assert (Hl : len64 (out_of P s) = len64 s) by (unfold len64; rewrite out_of_length; reflexivity).
+      assert (Hr2 : c_rct ctx2 = c_rct ctx) by (destruct Hfr as (_ & _ & E & _); rewrite E; reflexivity).
+      rewrite <- Hr2, <- Hl.
+      pose proof (update_hash_part_core ctx2 (ct_of Enc P) (out_of P s)
+                    (poly_core_same ctx1 ctx2 _ Hfr Hpc1)
+                    ltac:(rewrite out_of_length; assumption)) as Hpc3.
+      pose proof (update_hash_part_frame ctx2 (out_of P s) (len64 (out_of P s))
+                    (btc_of (c_rct ctx2) (len64 (out_of P s)))) as (Fk & F1 & F2 & F3).
+      split; [|reflexivity].
+      split; [| split; [| split]].
+      + apply (ks_rel_same ctx2); [assumption|]. rewrite st_after_app. exact Hks2.
+      + rewrite ct_of_app. exact Hpc3.
+      + rewrite F3. destruct Hfr as (_ & _ & _ & _ & _ & E). rewrite E. cbn. rewrite Hhl, len64_app. reflexivity.
+      + rewrite F2. destruct Hfr as (_ & _ & _ & _ & E & _). rewrite E. cbn. exact Hal.
+    - (* decrypt: hash the received ciphertext first, then decipher *)
+      pose proof (update_hash_part_core ctx1 (ct_of Dec P) s Hpc1 Hs) as Hpc2.
+      pose proof (update_hash_part_frame ctx1 s (len64 s) (btc_of (c_rct ctx1) (len64 s))) as (Fk & F1 & F2 & F3).
+      rewrite Hr1 in *.
+      set (ctx2 := update_hash_part ctx1 s (len64 s) (btc_of (c_rct ctx) (len64 s))) in *.
+      pose proof (enc_dec_ks_sim ctx2 (st_after P) s (ks_rel_same ctx1 ctx2 _ Fk Hks1)) as [Ho Hks3].
+      pose proof (enc_dec_ks_frame ctx2 s) as Hfr.
+      destruct (enc_dec_ks key ctx2 s) as [ctx3 dst] eqn:Ee. cbn [fst snd] in *.
+      split; [|exact Ho].
+      split; [| split; [| split]].
+      + rewrite st_after_app. exact Hks3.
+      + rewrite ct_of_app. apply (poly_core_same ctx2); assumption.
+      + destruct Hfr as (_ & _ & _ & _ & _ & E). rewrite E, F3. cbn. rewrite Hhl, len64_app. reflexivity.
+      + destruct Hfr as (_ & _ & _ & _ & E & _). rewrite E, F2. cbn. exact Hal.
+  Qed.
+
 End Generic.
